@@ -19,7 +19,7 @@ use crate::{
     ensure,
 };
 
-const RULE: &str = "a case = programs for 1-3 threads, each an op tree over up to 4 thread-private recorder doubles: with_local_recorder closures nested to depth <= 5 (optionally ending in a panic caught by the enclosing level), set_default_local_recorder guards kept in slots and dropped or mem::forgotten in any order, 'end of borrow' of a recorder once safe Rust would allow dropping it, and emissions through a table of 38 macro call sites (incl. empty target, empty and non-ASCII names, empty label key and value) (counter!/gauge!/histogram! x literal/computed name x no labels / literal labels / computed labels / slice of pairs / Vec<Label> / label iterator x target:/level: prefixes; describe_* with and without unit, literal and owned strings); threads interleave at op granularity under a generated schedule on fresh OS threads. 3/4 of the cases are 'clean' (guards dropped LIFO, never forgotten) and are checked against the exact stack model; the rest may drop out of order or forget and are checked for the safety clauses only. Non-trivial = an emission at nesting depth >= 2 or after a scope on that thread ended. Child-process lane: the same with a global recorder double installed first. Distinct = distinct decoded (case, schedule).";
+const RULE: &str = "a case = programs for 1-3 threads, each an op tree over up to 4 thread-private recorder doubles: with_local_recorder closures nested to depth <= 5 (optionally ending in a panic caught by the enclosing level), set_default_local_recorder guards kept in slots and dropped or mem::forgotten in any order, 'end of borrow' of a recorder once safe Rust would allow dropping it, and emissions through a table of 43 macro call sites (incl. empty target, empty and non-ASCII names, empty label key and value) (counter!/gauge!/histogram! x literal/computed name x no labels / literal labels / computed labels / slice of pairs / Vec<Label> / label iterator x target:/level: prefixes; describe_* with and without unit, literal and owned strings); threads interleave at op granularity under a generated schedule on fresh OS threads. 3/4 of the cases are 'clean' (guards dropped LIFO, never forgotten) and are checked against the exact stack model; the rest may drop out of order or forget and are checked for the safety clauses only. Non-trivial = an emission at nesting depth >= 2 or after a scope on that thread ended. Child-process lane: the same with a global recorder double installed first. Distinct = distinct decoded (case, schedule).";
 
 const MODULE: &str = "harness::props::c01";
 
@@ -43,7 +43,7 @@ fn exd(kind: char, name: &str, unit: Option<Unit>, desc: &str) -> Expect {
     Expect { kind, describe: true, name: name.to_string(), labels: vec![], target: String::new(), level: Level::INFO, unit, desc: desc.to_string() }
 }
 
-pub const NFORMS: usize = 38;
+pub const NFORMS: usize = 43;
 
 /// Performs the emission spelled by call site `form` (with runtime string `d`) and says what it spells.
 fn emit(form: usize, d: &str) -> Expect {
@@ -199,6 +199,28 @@ fn emit(form: usize, d: &str) -> Expect {
         36 => {
             histogram!(target: " ", "é.名", "ké" => d.to_string()).record(1.0);
             ex('h', "é.名", &[("ké", d)], " ", Level::INFO)
+        }
+        // every kind with a level: prefix alone and with a target: prefix alone (the prefix arms of the three macros are
+        // written out separately)
+        37 => {
+            histogram!(level: Level::WARN, "lit_h").record(1.0);
+            ex('h', "lit_h", &[], MODULE, Level::WARN)
+        }
+        38 => {
+            histogram!(level: Level::ERROR, dynname.clone(), "k" => "v").record(1.0);
+            ex('h', &dynname, &[("k", "v")], MODULE, Level::ERROR)
+        }
+        39 => {
+            gauge!(level: Level::DEBUG, "lit_g", "k" => "v").set(1.0);
+            ex('g', "lit_g", &[("k", "v")], MODULE, Level::DEBUG)
+        }
+        40 => {
+            histogram!(target: "tgt5", dynname.clone()).record(1.0);
+            ex('h', &dynname, &[], "tgt5", Level::INFO)
+        }
+        41 => {
+            counter!(level: Level::TRACE, dynname.clone(), "k" => d.to_string()).increment(1);
+            ex('c', &dynname, &[("k", d)], MODULE, Level::TRACE)
         }
         _ => {
             describe_counter!("", Unit::Percent, "");
